@@ -6,6 +6,6 @@ Extraction "c16_model.ml"
   env_encode env_decode claim_format purchase_encode purchase_decode
   varint_encode varint_decode zigzag_enc zigzag_dec int64_enc int64_dec
   ser_fields wire_parse parse_tree ser_tree tfields_ok fdepth
-  encode_all decode_all purchase_encode_all purchase_decode_all
+  encode_all decode_all purchase_encode_all purchase_decode_all v1_unsigned_payload
   url_parse url_print canon forbidden hard_forbidden
   hexlify unhexlify claim_id_of_hash hash_of_claim_id.
